@@ -736,7 +736,30 @@ theorem syncGp_inv {cfg : Cfg} {s : State}
     rw [e1, e7] at h1
     exact syncGp_gp cfg s c ci h1 h2
 
-theorem setGlobal_inv {cfg : Cfg} {k : ConfId} {s s' : State} (hinv : Inv cfg s)
+theorem regSynced_inv {cfg : Cfg} (hcfg : cfgOk cfg = true) (k : ConfId) : ∀ (cs : List ClassId) (s : State),
+    Inv cfg s → Inv cfg (regSynced cfg k cs s) ∧
+      ((s.confs.lookup k).isSome → ((regSynced cfg k cs s).confs.lookup k).isSome) := by
+  intro cs
+  induction cs with
+  | nil => intro s h; exact ⟨h, fun x => x⟩
+  | cons cls rest ih =>
+    intro s hinv
+    simp only [regSynced]
+    cases hk : s.confs.lookup k with
+    | none => exact ⟨hinv, fun x => by simp [hk] at x⟩
+    | some c =>
+      simp only []
+      cases hr : registerCls cfg cls c with
+      | error e => simp only []; rw [← hk]; exact ih s hinv
+      | ok c' =>
+        simp only []
+        obtain ⟨hc', hstep⟩ := registerCls_ok hcfg (hinv.confs k c hk) hr
+        have h1 := inv_setConf hcfg hinv hk hc' hstep
+        obtain ⟨h2, h3⟩ := ih _ h1
+        refine ⟨h2, fun _ => h3 ?_⟩
+        rw [setConf_confs, lookup_putConf]; simp
+
+theorem setGlobal_inv {cfg : Cfg} (hcfg : cfgOk cfg = true) {k : ConfId} {s s' : State} (hinv : Inv cfg s)
     (h : setGlobal cfg k s = .ok s') : Inv cfg s' := by
   unfold setGlobal at h
   simp only [bind, Except.bind] at h
@@ -745,8 +768,11 @@ theorem setGlobal_inv {cfg : Cfg} {k : ConfId} {s s' : State} (hinv : Inv cfg s)
   | ok c =>
     simp only [hg] at h
     cases h
-    apply syncGp_inv (s := { s with global := k }) hinv.confs hinv.pals hinv.live hinv.cache hinv.nc hinv.subs hinv.enums hinv.cur hinv.subcur
+    obtain ⟨h1, h2⟩ := regSynced_inv hcfg k (s.synced.map (·.1)) s hinv
+    apply syncGp_inv (s := { regSynced cfg k (s.synced.map (·.1)) s with global := k })
+      h1.confs h1.pals h1.live h1.cache h1.nc h1.subs h1.enums h1.cur h1.subcur
     simp only []
+    apply h2
     unfold getConf at hg
     split at hg
     · rename_i c0 hc0; simp [hc0]
